@@ -12,6 +12,7 @@ Real contention on one lock address:
 The observed outcome is compared with the Lean lock machine run on the derived event list."""
 import hashlib
 import os
+import shutil
 import signal
 import sys
 import time
@@ -52,6 +53,22 @@ def protected_state(repo):
             except OSError:
                 pass
     return h
+
+
+STRACE = shutil.which("strace") is not None
+
+
+def bind_refused(sf, port):
+    """the strace log `sf` shows a bind of 127.0.0.1:`port` answered with EADDRINUSE"""
+    if not sf:
+        return False
+    try:
+        for line in open(sf, errors="replace"):
+            if "bind(" in line and "htons(%d)" % port in line and "EADDRINUSE" in line:
+                return True
+    except OSError:
+        pass
+    return False
 
 
 def is_lock_error(err):
@@ -101,7 +118,9 @@ def hold_case(seed, model, rep):
         conts = []
         for i in range(ncont):
             api = rng.pick(sorted(APIS))
-            off = rng.range(20, max(40, hold_ms - 250)) / 1000.0
+            # after reset connections the contenders come early: should the holder have lost the lock,
+            # they exit long before it does
+            off = rng.range(20, min(max(40, hold_ms - 250), 200 if case.get("reset_connections") else 10000)) / 1000.0
             conts.append((api, off))
         conts.sort(key=lambda c: c[1])
         procs = []
@@ -109,14 +128,30 @@ def hold_case(seed, model, rep):
             dt = t_acq + off - time.time()
             if dt > 0:
                 time.sleep(dt)
-            procs.append((api, time.time(), repo.popen(APIS[api])))
+            # every contender runs under `strace -e trace=bind`: a refused bind of the lock address is
+            # the proof, free of any timing argument, that it tried to acquire while the lock was held
+            os.makedirs(repo.barrier_root, exist_ok=True)     # scratch directory removed by repo.done()
+            sf = os.path.join(repo.barrier_root, "bind.%d.strace" % len(procs)) if STRACE else None
+            wrap = ["strace", "-f", "-qq", "-e", "trace=bind", "-o", sf] if sf else None
+            procs.append((api, time.time(), repo.popen(APIS[api], wrap=wrap), sf))
         results = []
         inconclusive_run = False
-        for api, ts, p in procs:
+        # each contender is waited for on its own thread, so that "the holder was still running when
+        # the contender had exited" is sampled at the contender's exit and not when its turn comes
+        def wait_one(item):
+            api, ts, p, sf = item
             out, err = p.communicate(timeout=60)
-            # only a contender whose whole life lay inside the hold is conclusive: the holder must
-            # still be running after the contender has exited
-            if holder.poll() is None:
+            return holder.poll() is None, err
+        with ThreadPoolExecutor(max_workers=max(1, len(procs))) as ex:
+            waited = list(ex.map(wait_one, procs))
+        for (api, ts, p, sf), (holder_alive, err) in zip(procs, waited):
+            # a contender is conclusive when its whole life lay inside the hold (the holder is still
+            # running after the contender has exited), or when its own bind of the lock address was
+            # refused
+            refused = bind_refused(sf, repo.lock_port)
+            if refused:
+                rep.count("contender_bind_refused_seen")
+            if holder_alive or refused:
                 results.append((api, ts, time.time(), p.returncode, err.decode("utf-8", "replace")))
             else:
                 rep.count("contender_inconclusive")
@@ -346,6 +381,64 @@ def defaultport_case(seed, model, rep):
         repo.done()
 
 
+def namedhost_case(seed, model, rep):
+    """the lock host is given by name and the bind timeout is 0 ms: name resolution makes the bind
+    asynchronous, so the bind races its timer. Whichever wins, an invocation that has not bound the
+    lock address is not past acquisition: while a holder executes, every contender exits non-zero
+    with a lock error (refused bind or bind timeout)."""
+    rng = scen.Rng(seed)
+    repo = setup()
+    case = {"seed": seed, "mode": "namedhost"}
+    try:
+        repo.cfg["server"]["lock"] = {"host": "localhost", "port": repo.lock_port, "bind_timeout_ms": 0}
+        repo.write_config()
+        repo.set_plan({"slow|app": {"sleep_ms": 1200}, "slow|lib": {"sleep_ms": 1200}})
+        from logtail import wait_port
+        holder = None
+        for attempt in range(30):
+            h = repo.popen(["run", "-c", "slow", "-t", "app", "lib"])
+            if wait_port(repo.lock_port, 0.4):
+                holder = h
+                break
+            # the holder itself lost the race against its timer (legitimate) - or a changed
+            # implementation let it proceed without the address; either way it is not a holder
+            h.kill()
+            h.communicate()
+            scen.reap_helpers(repo)
+        if holder is None:
+            rep.count("namedhost_no_holder")
+            return
+        t_acq = time.time()
+        judged = 0
+        before = protected_state(repo)
+        while time.time() - t_acq < 0.8:
+            api = rng.pick(["ckupdate", "ckupdate", "ckdelete", "run"])
+            p = repo.popen(APIS[api])
+            out, err = p.communicate(timeout=60)
+            err = err.decode("utf-8", "replace")
+            if holder.poll() is not None:
+                break
+            judged += 1
+            rep.count("namedhost_contender_timeout" if "Bind timed out" in err else "namedhost_contender_refused" if is_lock_error(err) else "namedhost_contender_other")
+            if p.returncode == 0 or not (is_lock_error(err) or "Bind timed out" in err):
+                rep.oracle_fail({"kind": "an invocation that tried to acquire while another held the lock did not fail with the lock error",
+                                 "case": case, "contender": api, "rc": p.returncode, "stderr": err[-300:],
+                                 "detail": "lock host given by name, bind_timeout_ms 0; the holder was still executing when this contender had exited"})
+                holder.kill()
+                holder.communicate()
+                scen.reap_helpers(repo)
+                return
+        holder.communicate(timeout=60)
+        scen.reap_helpers(repo)
+        rep.evaluations += 1
+        rep.count("namedhost_cases")
+        rep.count("namedhost_contenders_judged", judged)
+        if judged:
+            rep.nontrivial_case(case)
+    finally:
+        repo.done()
+
+
 def main():
     args = scen.parse_args(sys.argv)
     t0 = time.time()
@@ -368,7 +461,9 @@ def main():
         cases.append(("defaultport", rng.next()))
         for _ in range((12 if args["tier"] == "thorough" else 3) * args["budget"]):
             cases.append(("nested", rng.next()))
-    fn = {"hold": hold_case, "storm": storm_case, "overlap": overlap_case, "defaultport": defaultport_case, "nested": nested_case}
+        for _ in range((10 if args["tier"] == "thorough" else 2) * args["budget"]):
+            cases.append(("namedhost", rng.next()))
+    fn = {"namedhost": namedhost_case, "hold": hold_case, "storm": storm_case, "overlap": overlap_case, "defaultport": defaultport_case, "nested": nested_case}
     scen.run_cases(lambda c: fn[c[0]](c[1], model, rep), cases, rep, 6)
     scen.finish(args, rep, t0, model)
 
